@@ -1235,7 +1235,9 @@ func accessMain(repo, outLean, outJSON string) {
 					continue
 				}
 				isMA := pshort(p.PkgPath) == "common" && fd.Name.Name == "Multiaddress"
-				isNNS := pshort(p.PkgPath) == "nns" && fd.Name.Name == "checkCommittee"
+				// the NNS committee gate is recognised by what it does, not by its name: a function of package nns that builds a
+				// multi-signature account in place, or that asks the common helper for the committee account
+				isNNS := pshort(p.PkgPath) == "nns" && (fd.Name.Name == "checkCommittee" || buildsMultisig(fd) || (!fd.Name.IsExported() && asksCommitteeAddress(t, p, fd)))
 				if !isMA && !isNNS {
 					// any other function that builds a multi-signature account from a key list (neofs.multiaddress): listed with its
 					// threshold; Props/C03 demands that each of them is the Alphabet threshold 2n/3+1
@@ -1282,7 +1284,8 @@ func accessMain(repo, outLean, outJSON string) {
 				if !ok {
 					continue
 				}
-				var plain, underIf []ast.Expr
+				var plain, underIf, underElse []ast.Expr
+				negated := false
 				var walk func(n ast.Node, inIf bool)
 				walk = func(n ast.Node, inIf bool) {
 					ast.Inspect(n, func(nd ast.Node) bool {
@@ -1291,10 +1294,22 @@ func accessMain(repo, outLean, outJSON string) {
 							if x.Init != nil {
 								walk(x.Init, inIf)
 							}
-							walk(x.Body, true)
 							if x.Else != nil {
+								// `if committee {t = A} else {t = B}` (or with the negated condition): both branches assign
+								nb := len(underIf)
+								walk(x.Body, true)
+								mid := append([]ast.Expr{}, underIf[nb:]...)
+								underIf = append([]ast.Expr{}, underIf[:nb]...)
 								walk(x.Else, true)
+								els := append([]ast.Expr{}, underIf[nb:]...)
+								underIf = append(append([]ast.Expr{}, underIf[:nb]...), mid...)
+								underElse = append(underElse, els...)
+								if u, ok := x.Cond.(*ast.UnaryExpr); ok && u.Op == token.NOT {
+									negated = true
+								}
+								return false
 							}
+							walk(x.Body, true)
 							return false
 						case *ast.AssignStmt:
 							if len(x.Lhs) == 1 && len(x.Rhs) == 1 {
@@ -1311,9 +1326,16 @@ func accessMain(repo, outLean, outJSON string) {
 					})
 				}
 				walk(fd.Body, false)
-				if len(plain) == 1 && len(underIf) == 1 {
+				if len(plain) == 1 && len(underIf) == 1 && len(underElse) == 0 {
 					emitThr("multiaddressDefaultThreshold", plain[0], fd)
 					emitThr("multiaddressCommitteeThreshold", underIf[0], fd)
+				} else if len(plain) == 0 && len(underIf) == 1 && len(underElse) == 1 {
+					cm, df := underIf[0], underElse[0]
+					if negated {
+						cm, df = df, cm
+					}
+					emitThr("multiaddressDefaultThreshold", df, fd)
+					emitThr("multiaddressCommitteeThreshold", cm, fd)
 				}
 			}
 		}
@@ -1345,6 +1367,32 @@ func accessMain(repo, outLean, outJSON string) {
 	if outJSON != "" {
 		_ = os.WriteFile(outJSON, js, 0o644)
 	}
+}
+
+func buildsMultisig(fd *ast.FuncDecl) bool {
+	found := false
+	ast.Inspect(fd.Body, func(nd ast.Node) bool {
+		if ce, ok := nd.(*ast.CallExpr); ok && len(ce.Args) == 2 {
+			if se, ok := ce.Fun.(*ast.SelectorExpr); ok && se.Sel.Name == "CreateMultisigAccount" {
+				found = true
+			}
+		}
+		return true
+	})
+	return found
+}
+
+func asksCommitteeAddress(t *tr, p *packages.Package, fd *ast.FuncDecl) bool {
+	found := false
+	ast.Inspect(fd.Body, func(nd ast.Node) bool {
+		if ce, ok := nd.(*ast.CallExpr); ok {
+			if f := t.fn(p, ce.Fun); f != nil && qname(f) == "common.CommitteeAddress" {
+				found = true
+			}
+		}
+		return true
+	})
+	return found
 }
 
 // collectInits records the initialisers of single-assignment locals of all functions (used by render/wit).
